@@ -6,7 +6,6 @@ from typing import TYPE_CHECKING
 from typing import Self
 
 from pest.grammar import Expression
-from pest.grammar.expressions.terminals import Identifier
 from pest.pairs import Pair
 
 if TYPE_CHECKING:
@@ -75,16 +74,22 @@ class Rule(Expression):
         state.rule_stack.push(self)
         children: list[Pair] = []
 
+        # As in pest, a rule matched inside an atomic (`@`) rule produces no
+        # pair of its own; `$` and `!` rules, and what they match, always do.
+        hidden = state.hide_pairs and not self.modifier & (COMPOUND | NONATOMIC)
+
         if self.modifier & (ATOMIC | COMPOUND) or self.name in (
             "COMMENT",
             "WHITESPACE",
         ):
             with state.atomic_checkpoint():
                 state.atomic_depth += 1
+                state.hide_pairs = not self.modifier & COMPOUND
                 matched = self.expression.parse(state, children)
         elif self.modifier & NONATOMIC:
             with state.atomic_checkpoint():
                 state.atomic_depth.zero()
+                state.hide_pairs = False
                 matched = self.expression.parse(state, children)
         else:
             matched = self.expression.parse(state, children)
@@ -94,25 +99,12 @@ class Rule(Expression):
         if not matched:
             return False
 
-        if self.modifier & SILENT:
+        if self.modifier & SILENT or hidden:
             # Children without an enclosing Pair.
             pairs.extend(children)
             return True
 
         tag: str | None = state.tag_stack.pop() if state.tag_stack else None
-
-        if self.modifier & ATOMIC:  # TODO: COMMENT and WHITESPACE too?
-            if isinstance(self.expression, Rule):
-                rule: Rule | None = self.expression
-            elif isinstance(self.expression, Identifier):
-                assert state.parser
-                rule = state.parser.rules.get(self.expression.value)
-            else:
-                rule = None
-
-            if not rule or not rule.modifier & (NONATOMIC | COMPOUND):
-                # Atomic rule silences children
-                children = []
 
         pairs.append(
             Pair(
@@ -143,6 +135,13 @@ class Rule(Expression):
             inner_pairs = gen.new_temp("children")
             gen.writeln(f"{inner_pairs}: list[Pair] = []")
 
+            # As in pest, a rule matched inside an atomic (`@`) rule produces no
+            # pair of its own; `$` and `!` rules, and what they match, always do.
+            hidden_var = gen.new_temp("hidden")
+            always_visible = bool(self.modifier & (COMPOUND | NONATOMIC))
+            if not self.modifier & SILENT and not always_visible:
+                gen.writeln(f"{hidden_var} = state.hide_pairs")
+
             if self.modifier & (ATOMIC | COMPOUND) or self.name in (
                 "COMMENT",
                 "WHITESPACE",
@@ -150,24 +149,32 @@ class Rule(Expression):
                 gen.writeln("with state.atomic_checkpoint():")
                 with gen.block():
                     gen.writeln("state.atomic_depth += 1")
+                    hide = not self.modifier & COMPOUND
+                    gen.writeln(f"state.hide_pairs = {hide}")
                     self.expression.generate(gen, matched_var, inner_pairs)
             elif self.modifier & NONATOMIC:
                 gen.writeln("with state.atomic_checkpoint():")
                 with gen.block():
                     gen.writeln("state.atomic_depth.zero()")
+                    gen.writeln("state.hide_pairs = False")
                     self.expression.generate(gen, matched_var, inner_pairs)
             else:
                 self.expression.generate(gen, matched_var, inner_pairs)
 
             gen.writeln("state.rule_stack.pop()")
 
-            children: str = inner_pairs
-
             if self.modifier & SILENT:
                 gen.writeln(f"# Silent rule {self.name!r}")
-                gen.writeln(f"{pairs_var}.extend({children})")
+                gen.writeln(f"{pairs_var}.extend({inner_pairs})")
                 gen.writeln(f"return {matched_var}")
             else:
+                if not always_visible:
+                    gen.writeln(f"if {hidden_var}:")
+                    with gen.block():
+                        # Children without an enclosing Pair.
+                        gen.writeln(f"{pairs_var}.extend({inner_pairs})")
+                        gen.writeln(f"return {matched_var}")
+
                 # Tag child pairs with the last tag on the stack.
                 # A rule that failed must leave the tag for the next attempt.
                 tag_var = gen.new_temp("tag")
@@ -178,23 +185,10 @@ class Rule(Expression):
                 with gen.block():
                     gen.writeln(f"{tag_var} = None")
 
-                if self.modifier & ATOMIC:  # TODO: COMMENT and WHITESPACE too?
-                    gen.writeln(f"# Atomic rule: {self.name!r}")
-                    assert gen.rules is not None
-                    if isinstance(self.expression, Rule):
-                        rule: Rule | None = self.expression
-                    elif isinstance(self.expression, Identifier):
-                        rule = gen.rules.get(self.expression.value)
-                    else:
-                        rule = None
-
-                    if not rule or not rule.modifier & (NONATOMIC | COMPOUND):
-                        children = "[]"
-
                 pair = (
                     f"Pair("
                     f"state.input, {start_pos}, state.pos, "
-                    f"rule_frame, {children}, {tag_var},"
+                    f"rule_frame, {inner_pairs}, {tag_var},"
                     ")"
                 )
 
